@@ -60,7 +60,7 @@ def traces():
                          [{"op": "add_slide", "layout": 1}] + alloc + [ck, {"op": "restart"}] + alloc[:3] + [ck, {"op": "restart"}]))
     # non-contiguous / out-of-order slide part names, then additions (next slide partname must not collide)
     for deck in ("f-sld-slides.pptx", "t-test_slides.pptx", "f-prs-add-slide.pptx", "f-shp-shapes.pptx"):
-        for mode in ("reverse", "rotate", "gaps", "shuffle", "lastfits", "firstbig"):
+        for mode in ("reverse", "rotate", "gaps", "shuffle", "lastfits", "firstbig", "midnext", "midnext2"):
             for sd in (1, 2, 3, 4, 5) if mode == "shuffle" else (1,):
                 for pre in ([], [ck], [{"op": "observe"}]):
                     out.append(T("renamed-then-add-%s-%s-%d-%d" % (deck, mode, sd, len(pre) + (1 if pre and pre[0].get("op") == "observe" else 0)),
